@@ -241,6 +241,58 @@ def check_case(case):
                             gt = Ry(wy) @ Rz(float(o)) @ g
                             r.check("find_omega_wedge", float(np.max(np.abs(gt - target(tth, float(e))))) / st, 1e-8, tk + ":wedge:cond", "diffraction condition (near tangency)")
                 r.nontrivial.add("band:%g:%g:%g" % (tthd, delta, phi))
+    # g given at another length (0.9x, 2 pi x, unit length): xfab.tools may refuse it (AssertionError: nothing returned, nothing
+    # claimed) but whatever a solver RETURNS must solve the diffraction condition for g scaled to sin(theta), and be complete
+    for d in dirs[:: max(1, len(dirs) // 12)]:
+        dv = np.array(d, float)
+        g = dv / np.linalg.norm(dv) * st
+        for fac in (0.9, 2 * math.pi, 1.0 / st):
+            for wx, wy in ((0.0, 0.0), (0.1, -0.1)):
+                Rm = Rx(wx) @ Ry(wy)
+                for sname, call, Mfun, row, gg in (
+                    ("general", lambda: mod.find_omega_general(g * fac, tth, wx, wy), lambda o: mod.form_omega_mat_general(o, wx, wy), Rm[0], g),
+                    ("quart", lambda: mod.find_omega_quart(g * fac, tth, wx, wy), lambda o: mod.quart_to_omega(math.degrees(o), wx, wy), Rm[0], Rm.T @ g),
+                ):
+                    key = "%s:tth=%g:g=%s*%.3g:chi=%g:wedge=%g:%s" % (mname, tthd, d, fac, wx, wy, sname)
+                    try:
+                        om, eta = call()
+                    except AssertionError:
+                        r.evals += 1
+                        continue
+                    for o, e in zip(om, eta):
+                        gt = Mfun(float(o)) @ g
+                        r.check("unscaled-g", float(np.max(np.abs(gt - target(tth, float(e))))) / st, 1e-9, key + ":cond", "diffraction condition for g given at another length")
+                    exp = expected_count(row, gg, st)
+                    if exp is not None:
+                        r.require(len(om) == exp, key + ":count", "number of solutions for g given at another length", exp, len(om))
+    # g micro-radians off the rotation axis while theta = |wedge| (then c ~ 0 and the reflection diffracts twice per turn)
+    for w in (0.1, -0.1, 0.5):
+        tth_w = 2 * abs(w)
+        st_w = math.sin(tth_w / 2)
+        for delta in (1e-7, 1e-6, 1e-5, 1e-3):
+            for phi in (0.4, 3.0):
+                for sgn in (1.0, -1.0):
+                    g = st_w * np.array([math.sin(delta) * math.cos(phi), math.sin(delta) * math.sin(phi), sgn * math.cos(delta)])
+                    key = "%s:near-axis(wedge=%g,delta=%g,phi=%g,z%+d)" % (mname, w, delta, phi, int(sgn))
+                    for wx, wy, tagw in ((0.0, w, "general"), (0.0, w, "quart")):
+                        Rm = Rx(wx) @ Ry(wy)
+                        if tagw == "general":
+                            om, eta = mod.find_omega_general(g * scale, tth_w, wx, wy)
+                            exp = expected_count(Rm[0], g, st_w)
+                            Mf = lambda o: mod.form_omega_mat_general(o, wx, wy)
+                        else:
+                            om, eta = mod.find_omega_quart(g * scale, tth_w, wx, wy)
+                            exp = expected_count(Rm[0], Rm.T @ g, st_w)
+                            Mf = lambda o: mod.quart_to_omega(math.degrees(o), wx, wy)
+                        if exp is not None:
+                            r.require(len(om) == exp, key + ":" + tagw + ":count", "number of solutions for g almost along the rotation axis", exp, len(om))
+                        for o, e in zip(om, eta):
+                            gt = Mf(float(o)) @ g
+                            r.check("near-axis", float(np.max(np.abs(gt - target(tth_w, float(e))))) / st_w, 1e-8, key + ":" + tagw + ":cond", "diffraction condition for g almost along the axis")
+                    ow, ew = mod.find_omega_wedge(g * scale, tth_w, -w)
+                    expw = expected_count(Ry(w)[0], g, st_w)
+                    if expw is not None:
+                        r.require(len(ow) == expw, key + ":wedge:count", "number of solutions for g almost along the rotation axis", expw, len(ow))
     r.states = len(dirs) * (len(tilts) ** 2 + len(tilts) + 1)
     r.transitions = r.states * 2
     return r
